@@ -5,8 +5,8 @@ namespace Capnp.Lemmas.Rpc
 open Capnp.Model.Rpc
 
 /-- the part of the state the export invariant talks about -/
-def core (s : RS) : (Nat → Option Exp) × (Nat → Nat) × (Nat → Nat) × Bool :=
-  (s.exports, s.sent, s.released, s.panicked)
+def core (s : RS) : (Nat → Option Exp) × (Nat → Nat) × (Nat → Nat) × Bool × IdGen :=
+  (s.exports, s.sent, s.released, s.panicked, s.exportID)
 
 /-- **export reference accounting**: for every entry of the export table, the references the peer holds are
     the descriptors sent naming it minus the references given back (since the entry was created), and an entry
@@ -18,7 +18,7 @@ def EInv (s : RS) : Prop :=
 theorem EInv_congr (s s' : RS) (h : core s' = core s) (hi : EInv s) : EInv s' := by
   unfold core at h
   simp only [Prod.mk.injEq] at h
-  obtain ⟨h1, h3, h4, h5⟩ := h
+  obtain ⟨h1, h3, h4, h5, _⟩ := h
   unfold EInv at *
   rw [h1, h3, h4, h5]; exact hi
 
@@ -110,7 +110,7 @@ theorem sendCap_EInv (s : RS) (c : CapV) (h : EInv s) : EInv (sendCap s c).1 := 
           have := h.1 x ex hx
           simp only [bump, reset, hxi, ↓reduceIte]
           rw [hc.2.1, hc.2.2.1]; exact this
-      · simp only; rw [hc.2.2.2]; exact h.2
+      · simp only; rw [hc.2.2.2.1]; exact h.2
   cases c with
   | null => exact h
   | imp i => exact h
@@ -180,28 +180,6 @@ theorem releaseExport_spec (s : RS) (id n : Nat) (e : Exp) (he : s.exports id = 
     rw [if_neg (by omega), if_neg (by omega)]
     exact ⟨_, rfl, by simp [setExp]⟩
 
-theorem fillCaps_EInv (s : RS) (cs : List CapV) (h : EInv s) : EInv (fillCaps s cs).1 := by
-  unfold fillCaps
-  apply foldl_inv (fun (acc : RS × List String × List (Nat × Nat)) => EInv acc.1)
-  · exact h
-  · intro acc c hacc
-    exact sendCap_EInv acc.1 c hacc
-
-theorem destroy_EInv (s : RS) (id : Nat) (a : Ans) (h : EInv s) : EInv (destroy s id a).1 := by
-  have h1 : EInv (dropRefs { s with answers := del s.answers id } a.resultCaps).1 :=
-    EInv_congr _ _ (by rw [dropRefs_core]; rfl) h
-  unfold destroy
-  simp only
-  split
-  · apply foldl_inv (fun (acc : RS × List Out × Bool) => EInv acc.1)
-    · exact h1
-    · intro acc e hacc
-      split
-      · rename_i s' o' hre
-        exact releaseExport_EInv acc.1 e.1 e.2 (s', o') hacc hre
-      · exact hacc
-  · exact h1
-
 theorem shutdown_EInv (s : RS) (b : Bool) (h : EInv s) : EInv (shutdown true s b).1 := by
   unfold shutdown
   split
@@ -211,17 +189,50 @@ theorem shutdown_EInv (s : RS) (b : Bool) (h : EInv s) : EInv (shutdown true s b
     · simp only [Bool.not_true, Bool.false_and, Bool.or_false]
       -- `panicked` is untouched by the releases
       have hp : ∀ (t : RS) (cs : List CapV), (dropRefs t cs).1.panicked = t.panicked := by
-        intro t cs; have := dropRefs_core t cs; simp only [core, Prod.mk.injEq] at this; exact this.2.2.2
+        intro t cs; have := dropRefs_core t cs; simp only [core, Prod.mk.injEq] at this; exact this.2.2.2.1
       have hp1 : ∀ (t : RS) (c : CapV), (dropRef t c).1.panicked = t.panicked := by
-        intro t c; have := dropRef_core t c; simp only [core, Prod.mk.injEq] at this; exact this.2.2.2
+        intro t c; have := dropRef_core t c; simp only [core, Prod.mk.injEq] at this; exact this.2.2.2.1
       split <;> simp only [hp, hp1] <;> exact h.2
+
+theorem pcongr {P : RS → Prop} (hc : ∀ s s', core s' = core s → P s → P s') {s s' : RS} (hi : P s) (h : core s' = core s) : P s' :=
+  hc s s' h hi
+
+/-- what an invariant needs in order to be carried through every function of the model: it only looks at the
+    export-side core of the state, and the two functions that change that core preserve it -/
+structure Pres (P : RS → Prop) : Prop where
+  congr : ∀ s s', core s' = core s → P s → P s'
+  send : ∀ s c, P s → P (sendCap s c).1
+  rel : ∀ s id n r, P s → releaseExport s id n = some r → P r.1
+  shut : ∀ s b, P s → P (shutdown true s b).1
+
+theorem fillCaps_pres (P : RS → Prop) (HP : Pres P) (s : RS) (cs : List CapV) (h : P s) : P (fillCaps s cs).1 := by
+  unfold fillCaps
+  apply foldl_inv (fun (acc : RS × List String × List (Nat × Nat)) => P acc.1)
+  · exact h
+  · intro acc c hacc
+    exact HP.send acc.1 c hacc
+
+theorem destroy_pres (P : RS → Prop) (HP : Pres P) (s : RS) (id : Nat) (a : Ans) (h : P s) : P (destroy s id a).1 := by
+  have h1 : P (dropRefs { s with answers := del s.answers id } a.resultCaps).1 :=
+    pcongr HP.congr h (by rw [dropRefs_core]; rfl)
+  unfold destroy
+  simp only
+  split
+  · apply foldl_inv (fun (acc : RS × List Out × Bool) => P acc.1)
+    · exact h1
+    · intro acc e hacc
+      split
+      · rename_i s' o' hre
+        exact HP.rel acc.1 e.1 e.2 (s', o') hacc hre
+      · exact hacc
+  · exact h1
 
 /-! ## the recursive part -/
 
-theorem recursive_EInv (fuel : Nat) :
-    (∀ s q res, EInv s → EInv (appReturn true fuel s q res).1) ∧
-    (∀ s q k m tag a, EInv s → EInv (deliver true fuel s q k m tag a).1) ∧
-    (∀ s q m a c, EInv s → EInv (callCap true fuel s q m a c).1) := by
+theorem recursive_pres (P : RS → Prop) (HP : Pres P) (fuel : Nat) :
+    (∀ s q res, P s → P (appReturn true fuel s q res).1) ∧
+    (∀ s q k m tag a, P s → P (deliver true fuel s q k m tag a).1) ∧
+    (∀ s q m a c, P s → P (callCap true fuel s q m a c).1) := by
   induction fuel with
   | zero =>
     refine ⟨?_, ?_, ?_⟩
@@ -231,57 +242,57 @@ theorem recursive_EInv (fuel : Nat) :
       cases c <;> unfold callCap <;> first | exact h | (unfold deliver; exact h)
   | succ fuel ih =>
     obtain ⟨ihR, ihD, ihC⟩ := ih
-    have hR : ∀ s q res, EInv s → EInv (appReturn true (fuel + 1) s q res).1 := by
+    have hR : ∀ s q res, P s → P (appReturn true (fuel + 1) s q res).1 := by
       intro s q res h
       unfold appReturn
       simp only
       split
       · exact h
       · rename_i a ha
-        have h1 : EInv (dropRefs s (a.paramImps.map CapV.imp)).1 := EInv_congr _ _ (dropRefs_core _ _) h
+        have h1 : P (dropRefs s (a.paramImps.map CapV.imp)).1 := pcongr HP.congr h (dropRefs_core _ _)
         split
         · exact h
-        apply foldl_inv (fun (acc : RS × List Out) => EInv acc.1)
+        apply foldl_inv (fun (acc : RS × List Out) => P acc.1)
         · -- the Return itself, then destroy-or-store
           cases res with
           | none =>
             simp only
             split
-            · exact destroy_EInv _ q _ (EInv_congr _ _ rfl h1)
-            · exact EInv_congr _ _ rfl h1
+            · exact destroy_pres P HP _ q _ (pcongr HP.congr h1 rfl)
+            · exact pcongr HP.congr h1 rfl
           | some caps =>
             simp only
-            have h2 := fillCaps_EInv _ caps h1
+            have h2 := fillCaps_pres P HP _ caps h1
             split
-            · exact destroy_EInv _ q _ (EInv_congr _ _ rfl h2)
-            · exact EInv_congr _ _ rfl h2
+            · exact destroy_pres P HP _ q _ (pcongr HP.congr h2 rfl)
+            · exact pcongr HP.congr h2 rfl
         · intro acc p hacc
           split
           · exact hacc
           · rename_i pa hpa
             exact ihC acc.1 p.q p.m pa _ hacc
-    have hD : ∀ s q k m tag a, EInv s → EInv (deliver true (fuel + 1) s q k m tag a).1 := by
+    have hD : ∀ s q k m tag a, P s → P (deliver true (fuel + 1) s q k m tag a).1 := by
       intro s q k m tag a h
       unfold deliver
       simp only
       split
       · split
-        · exact ihR _ q none (EInv_congr _ _ rfl h)
-        · exact EInv_congr _ _ rfl h
-      · exact ihR _ q _ (EInv_congr _ _ rfl h)
-      · exact ihR _ q _ (EInv_congr _ _ rfl h)
-      · exact ihR _ q _ (EInv_congr _ _ rfl h)
-      · exact ihR _ q _ (EInv_congr _ _ (addRef_core _ _) h)
-      · exact ihR _ q _ (EInv_congr _ _ (addRef_core _ _) h)
-      · exact ihR _ q _ (EInv_congr _ _ rfl h)
-      · exact ihR _ q _ (EInv_congr _ _ rfl h)
+        · exact ihR _ q none (pcongr HP.congr h rfl)
+        · exact pcongr HP.congr h rfl
+      · exact ihR _ q _ (pcongr HP.congr h rfl)
+      · exact ihR _ q _ (pcongr HP.congr h rfl)
+      · exact ihR _ q _ (pcongr HP.congr h rfl)
+      · exact ihR _ q _ (pcongr HP.congr h (addRef_core _ _))
+      · exact ihR _ q _ (pcongr HP.congr h (addRef_core _ _))
+      · exact ihR _ q _ (pcongr HP.congr h rfl)
+      · exact ihR _ q _ (pcongr HP.congr h rfl)
     refine ⟨hR, hD, ?_⟩
     intro s q m a c h
     cases c with
     | loc k => unfold callCap; exact hD s q k m q a h
-    | null => unfold callCap; exact ihR _ q none (EInv_congr _ _ rfl h)
-    | imp i => unfold callCap; exact ihR _ q none (EInv_congr _ _ rfl h)
-    | err => unfold callCap; exact ihR _ q none (EInv_congr _ _ rfl h)
+    | null => unfold callCap; exact ihR _ q none (pcongr HP.congr h rfl)
+    | imp i => unfold callCap; exact ihR _ q none (pcongr HP.congr h rfl)
+    | err => unfold callCap; exact ihR _ q none (pcongr HP.congr h rfl)
 
 /-! ## one event -/
 
@@ -300,14 +311,14 @@ theorem recvParams_core (s : RS) (ds : List Desc) : core (recvParams s ds).1 = c
       · split <;> exact hacc
       · exact hacc
 
-theorem abortCall_EInv (s : RS) (q : Nat) (imps : List Nat) (h : EInv s) : EInv (abortCall true s q imps).1 := by
+theorem abortCall_pres (P : RS → Prop) (HP : Pres P) (s : RS) (q : Nat) (imps : List Nat) (h : P s) : P (abortCall true s q imps).1 := by
   unfold abortCall
   simp only
-  apply shutdown_EInv
-  exact EInv_congr _ _ (dropRefs_core s _) h
+  apply HP.shut
+  exact pcongr HP.congr h (dropRefs_core s _)
 
-theorem step_EInv (s : RS) (e : Ev) (h : EInv s) : EInv (step true s e).1 := by
-  obtain ⟨hR, hD, hC⟩ := recursive_EInv (fuelOf s)
+theorem step_pres (P : RS → Prop) (HP : Pres P) (s : RS) (e : Ev) (h : P s) : P (step true s e).1 := by
+  obtain ⟨hR, hD, hC⟩ := recursive_pres P HP (fuelOf s)
   unfold step
   split
   · exact h
@@ -315,66 +326,66 @@ theorem step_EInv (s : RS) (e : Ev) (h : EInv s) : EInv (step true s e).1 := by
     | bootstrap q =>
       simp only
       split
-      · exact shutdown_EInv s true h
+      · exact HP.shut s true h
       · split
-        · exact EInv_congr _ _ rfl h
-        · have h1 : EInv (addRef { s with accepted := bump s.accepted q } (.loc 0)) := EInv_congr _ _ (addRef_core _ _) h
-          have h2 := fillCaps_EInv _ [.loc 0] h1
-          exact EInv_congr _ _ rfl h2
+        · exact pcongr HP.congr h rfl
+        · have h1 : P (addRef { s with accepted := bump s.accepted q } (.loc 0)) := pcongr HP.congr h (addRef_core _ _)
+          have h2 := fillCaps_pres P HP _ [.loc 0] h1
+          exact pcongr HP.congr h2 rfl
     | call q tgt m caps =>
       simp only
       split
-      · exact shutdown_EInv s true h
-      · have hp : EInv (recvParams s caps).1 := EInv_congr _ _ (recvParams_core s caps) h
+      · exact HP.shut s true h
+      · have hp : P (recvParams s caps).1 := pcongr HP.congr h (recvParams_core s caps)
         generalize recvParams s caps = rp at hp
         obtain ⟨s1, imps, ok⟩ := rp
         simp only at hp
         cases ok with
         | false =>
           simp only [Bool.not_true, Bool.false_eq_true, ↓reduceIte]
-          exact EInv_congr _ _ (dropRefs_core _ _) hp
+          exact pcongr HP.congr hp (dropRefs_core _ _)
         | true =>
           simp only
           cases tgt with
           | exp id =>
             simp only
             split
-            · exact abortCall_EInv s1 q imps hp
-            · exact hC _ q m _ _ (EInv_congr _ _ rfl hp)
+            · exact abortCall_pres P HP s1 q imps hp
+            · exact hC _ q m _ _ (pcongr HP.congr hp rfl)
           | ans tq path =>
             simp only
             split
-            · exact abortCall_EInv s1 q imps hp
+            · exact abortCall_pres P HP s1 q imps hp
             · split
-              · exact abortCall_EInv s1 q imps hp
+              · exact abortCall_pres P HP s1 q imps hp
               · split
                 · split
-                  · exact hR _ q none (EInv_congr _ _ rfl hp)
-                  · exact hC _ q m _ _ (EInv_congr _ _ rfl hp)
-                · exact EInv_congr _ _ rfl hp
+                  · exact hR _ q none (pcongr HP.congr hp rfl)
+                  · exact hC _ q m _ _ (pcongr HP.congr hp rfl)
+                · exact pcongr HP.congr hp rfl
           | unknown =>
             simp only [Bool.not_true, Bool.false_eq_true, ↓reduceIte]
-            exact EInv_congr _ _ (dropRefs_core _ _) hp
+            exact pcongr HP.congr hp (dropRefs_core _ _)
     | finish q rel =>
       simp only
       split
-      · exact shutdown_EInv s true h
+      · exact HP.shut s true h
       · split
-        · exact shutdown_EInv s true h
+        · exact HP.shut s true h
         · split
           · split
-            · exact hR _ q none (EInv_congr _ _ rfl h)
+            · exact hR _ q none (pcongr HP.congr h rfl)
             · split
-              · exact hR _ q none (EInv_congr _ _ rfl h)
-              · exact EInv_congr _ _ rfl h
+              · exact hR _ q none (pcongr HP.congr h rfl)
+              · exact pcongr HP.congr h rfl
           · split
-            · exact destroy_EInv s q _ h
-            · exact shutdown_EInv _ true (destroy_EInv s q _ h)
+            · exact destroy_pres P HP s q _ h
+            · exact HP.shut _ true (destroy_pres P HP s q _ h)
     | release id n =>
       simp only
       split
-      · rename_i r hr; exact releaseExport_EInv s id n r h hr
-      · exact shutdown_EInv s true h
+      · rename_i r hr; exact HP.rel s id n r h hr
+      · exact HP.shut s true h
     | appRet q kind =>
       simp only
       split
@@ -384,14 +395,14 @@ theorem step_EInv (s : RS) (e : Ev) (h : EInv s) : EInv (step true s e).1 := by
         · split
           · exact hR _ q _ h
           · exact hR _ q _ h
-          · exact hR _ q _ (EInv_congr _ _ rfl h)
-          · exact hR _ q _ (EInv_congr _ _ (addRef_core _ _) h)
-          · exact hR _ q _ (EInv_congr _ _ (addRef_core _ _) h)
-          · exact hR _ q _ (EInv_congr _ _ rfl h)
-    | close => exact shutdown_EInv s true h
+          · exact hR _ q _ (pcongr HP.congr h rfl)
+          · exact hR _ q _ (pcongr HP.congr h (addRef_core _ _))
+          · exact hR _ q _ (pcongr HP.congr h (addRef_core _ _))
+          · exact hR _ q _ (pcongr HP.congr h rfl)
+    | close => exact HP.shut s true h
 
-theorem cancelHeld_EInv (n : Nat) (s : RS) (acc : List Out) (ks : List Nat) (h : EInv s) :
-    EInv (cancelHeld true n s acc ks).1 := by
+theorem cancelHeld_pres (P : RS → Prop) (HP : Pres P) (n : Nat) (s : RS) (acc : List Out) (ks : List Nat) (h : P s) :
+    P (cancelHeld true n s acc ks).1 := by
   induction n generalizing s acc ks with
   | zero => unfold cancelHeld; exact h
   | succ n ih =>
@@ -401,16 +412,26 @@ theorem cancelHeld_EInv (n : Nat) (s : RS) (acc : List Out) (ks : List Nat) (h :
       unfold cancelHeld
       simp only
       apply ih
-      apply foldl_inv (fun (st : RS × List Out) => EInv st.1)
+      apply foldl_inv (fun (st : RS × List Out) => P st.1)
       · exact h
       · intro st q hst
-        exact (recursive_EInv (fuelOf st.1)).1 st.1 q none hst
+        exact (recursive_pres P HP (fuelOf st.1)).1 st.1 q none hst
 
-theorem stepTop_EInv (s : RS) (e : Ev) (h : EInv s) : EInv (stepTop true s e).1 := by
+theorem stepTop_pres (P : RS → Prop) (HP : Pres P) (s : RS) (e : Ev) (h : P s) : P (stepTop true s e).1 := by
   unfold stepTop
   simp only
   split
-  · exact step_EInv s e h
-  · exact cancelHeld_EInv _ _ _ _ (step_EInv s e h)
+  · exact step_pres P HP s e h
+  · exact cancelHeld_pres P HP _ _ _ _ (step_pres P HP s e h)
+
+
+
+/-! ## the export accounting invariant is carried by every event -/
+
+theorem EInv_pres : Pres EInv :=
+  ⟨EInv_congr, sendCap_EInv, fun s id n r h hr => releaseExport_EInv s id n r h hr, shutdown_EInv⟩
+
+theorem step_EInv (s : RS) (e : Ev) (h : EInv s) : EInv (step true s e).1 := step_pres EInv EInv_pres s e h
+theorem stepTop_EInv (s : RS) (e : Ev) (h : EInv s) : EInv (stepTop true s e).1 := stepTop_pres EInv EInv_pres s e h
 
 end Capnp.Lemmas.Rpc
